@@ -23,6 +23,7 @@ func init() {
 		"vLogS":       inLogS,
 		"vPanics":     inPanics,
 		"vSame":       inSame,
+		"vSameDeep":   inSameDeep,
 		"vChoice":     inChoice,
 		"vConcrete":   inConcrete,
 		"vParam":      inParam,
@@ -364,6 +365,9 @@ func (t *Thread) sameValue(a, b Value) *Term {
 		return ts.Bool(ok && x == y)
 	case *MapObj:
 		y, ok := b.(*MapObj)
+		if ok && t.deepSame {
+			return t.sameMapContent(x, y)
+		}
 		return ts.Bool(ok && x == y)
 	case *ChanObj:
 		y, ok := b.(*ChanObj)
@@ -397,6 +401,13 @@ func (t *Thread) sameValue(a, b Value) *Term {
 		}
 		if x.n == 0 {
 			return ts.Bool(true)
+		}
+		if t.deepSame {
+			r := ts.Bool(true)
+			for i := 0; i < x.n; i++ {
+				r = ts.And(r, t.sameValue(x.cells[i].v, y.cells[i].v))
+			}
+			return r
 		}
 		return ts.Bool(x.cells[0] == y.cells[0])
 	case *Struct:
@@ -432,6 +443,33 @@ func (t *Thread) sameValue(a, b Value) *Term {
 
 func inSame(t *Thread, fn *ssa.Function, args []Value, pos token.Pos) Value {
 	return t.sameValue(args[0], args[1])
+}
+
+func inSameDeep(t *Thread, fn *ssa.Function, args []Value, pos token.Pos) Value {
+	t.deepSame = true
+	defer func() { t.deepSame = false }()
+	return t.sameValue(args[0], args[1])
+}
+
+// sameMapContent: both nil or both non-nil, same size, every entry of x has an equal key in y with
+// a same-deep value (keys may be symbolic: a formula)
+func (t *Thread) sameMapContent(x, y *MapObj) *Term {
+	ts := t.e.ts
+	if x == nil || y == nil {
+		return ts.Bool(x == nil && y == nil)
+	}
+	if len(x.ents) != len(y.ents) {
+		return ts.Bool(false)
+	}
+	r := ts.Bool(true)
+	for _, ex := range x.ents {
+		any := ts.Bool(false)
+		for _, ey := range y.ents {
+			any = ts.Or(any, ts.And(t.sameValue(ex.k, ey.k), t.sameValue(ex.c.v, ey.c.v)))
+		}
+		r = ts.And(r, any)
+	}
+	return r
 }
 
 func inChoice(t *Thread, fn *ssa.Function, args []Value, pos token.Pos) Value {
